@@ -172,13 +172,22 @@ Proof.
     exists s'. rewrite Hs'. cbn. rewrite <- app_assoc. reflexivity.
 Qed.
 
-Lemma send_if_msgs_eff p : quiet -> out_ok -> connected (fst p) = true ->
-  exists s', send_if_msgs p = ((set_sent (sent (fst p) ++ outq (fst p)) (set_outq [] (fst p)), s'), None).
+Definition flushed (d : dstate) : dstate :=
+  set_sent (sent d ++ outq d) (set_outbuf [] (set_outq [] d)).
+
+Lemma send_if_msgs_eff p : quiet -> out_ok -> connected (fst p) = true -> enc_ok (fst p) = true ->
+  exists s', send_if_msgs p = ((flushed (fst p), s'), None).
 Proof.
-  intros Hq Ho Hc. unfold Model.send_if_msgs. rewrite Hc.
+  intros Hq Ho Hc He. unfold Model.send_if_msgs. rewrite Hc.
   destruct (take_all_drain (S (length (outq (fst p)))) Hq Ho [] p) as [s' Hs']; [lia|].
-  rewrite Hs'. exists s'. reflexivity.
+  rewrite Hs'. exists s'. cbn [fst snd app].
+  unfold enc_ok, enc_qb, qb in He. cbn [fst snd] in He. apply andb_true_iff in He as [H1 H2].
+  destruct (outbuf (fst p)) eqn:Eb; [|discriminate].
+  cbn [set_outq outbuf app]. rewrite Eb. cbn [app]. rewrite H1. reflexivity.
 Qed.
+
+Lemma flushed_ok d : connected (flushed d) = connected d /\ enc_ok (flushed d) = true.
+Proof. split; reflexivity. Qed.
 
 (* a recv outcome that neither closes nor breaks the connection *)
 Definition calm (rv : recv) : bool :=
@@ -187,31 +196,34 @@ Definition calm (rv : recv) : bool :=
 (* one drivers.run() on a calm outcome: still connected, PONGs only accumulate, and a PING line
    completed by this chunk is answered *)
 Lemma driver_run_calm rv buf p : quiet -> dispatch_ok -> out_ok -> calm rv = true -> step_ok vt decode rv buf = true ->
-  connected (fst p) = true ->
+  connected (fst p) = true -> enc_ok (fst p) = true ->
   let r := driver_run rv buf p in
-  snd (snd r) = None /\ connected (fst (fst (snd r))) = true /\
+  snd (snd r) = None /\ connected (fst (fst (snd r))) = true /\ enc_ok (fst (fst (snd r))) = true /\
   (forall l m a rest, rv = RData (l ++ [LFb]) -> buf = [] -> mem LFb l = false ->
      parse_msg vt (decode l) = Ok (Some m) -> is_ping (m_command m) = true -> m_args m = a :: rest ->
      valid_arg a = true -> In a (sent (fst (fst (snd r))))).
 Proof.
-  intros Hq Hd Ho Hcalm Hs Hc. cbn zeta. unfold Model.driver_run. rewrite Hc.
-  destruct (send_if_msgs_eff p Hq Ho Hc) as [s1 H1]. rewrite H1.
-  set (d1 := set_sent (sent (fst p) ++ outq (fst p)) (set_outq [] (fst p))).
+  intros Hq Hd Ho Hcalm Hs Hc He. cbn zeta. unfold Model.driver_run. rewrite Hc.
+  destruct (send_if_msgs_eff p Hq Ho Hc He) as [s1 H1]. rewrite H1.
+  set (d1 := flushed (fst p)).
   assert (Hc1 : connected d1 = true) by exact Hc.
+  assert (He1 : enc_ok d1 = true) by reflexivity.
   unfold Model.read, Model.read_body.
   destruct rv as [b| |x]; [| discriminate |].
   - cbn [step_ok] in Hs.
     destruct (split_lines (buf ++ b)) as [ls rest0] eqn:Esp. cbn [fst] in Hs.
     pose proof (feed_lines_none St vt decode dispatch addmsg cbs ls Hd (d1, s1) Hs) as Hn.
     pose proof (feed_lines_conn ls Hq Hd (d1, s1)) as Hcc.
+    pose proof (feed_lines_enc St vt decode dispatch addmsg cbs ls (d1, s1) Hs He1) as He2.
     destruct (feed_lines ls (d1, s1)) as [p2 x2] eqn:Ef. cbn [fst snd] in *. subst x2.
     unfold Model.read_tail.
     assert (Hc2 : connected (fst p2) = true) by (rewrite Hcc; exact Hc1).
-    destruct (send_if_msgs_eff p2 Hq Ho Hc2) as [s3 H3]. rewrite H3. cbn [fst snd].
-    set (d3 := set_sent (sent (fst p2) ++ outq (fst p2)) (set_outq [] (fst p2))).
+    destruct (send_if_msgs_eff p2 Hq Ho Hc2 He2) as [s3 H3]. rewrite H3. cbn [fst snd].
+    set (d3 := flushed (fst p2)).
     assert (Hc3 : connected d3 = true) by exact Hc2.
-    destruct (send_if_msgs_eff (d3, s3) Hq Ho Hc3) as [s4 H4]. rewrite H4. cbn [fst snd].
-    split; [reflexivity|]. split; [exact Hc3|].
+    assert (He3 : enc_ok d3 = true) by reflexivity.
+    destruct (send_if_msgs_eff (d3, s3) Hq Ho Hc3 He3) as [s4 H4]. rewrite H4. cbn [fst snd].
+    split; [reflexivity|]. split; [exact Hc3|]. split; [reflexivity|].
     intros l m a rest Hrv Hbuf Hmem Hp Hping Hargs Hv. inversion Hrv; subst b buf. clear Hrv.
     cbn [app] in Esp. rewrite (split_lines_line l Hmem) in Esp. inversion Esp; subst ls rest0. clear Esp.
     cbn [Model.feed_lines] in Ef. rewrite Hp in Ef.
@@ -224,25 +236,27 @@ Proof.
                  first_match gen.T07.READ_CATCHES x = Some gen.T07.CSSLError /\ x = XSSLTimeout).
     { destruct x; try discriminate; [left; split; [exact T_timeout|reflexivity] | right; split; [exact T_ssltimeout|reflexivity]]. }
     unfold Model.read_tail.
-    destruct (send_if_msgs_eff (d1, s1) Hq Ho Hc1) as [s3 H3]. cbn [fst] in H3.
-    set (d3 := set_sent (sent d1 ++ outq d1) (set_outq [] d1)) in *.
+    destruct (send_if_msgs_eff (d1, s1) Hq Ho Hc1 He1) as [s3 H3]. cbn [fst] in H3.
+    set (d3 := flushed d1) in *.
     assert (Hc3 : connected d3 = true) by exact Hc1.
-    destruct (send_if_msgs_eff (d3, s3) Hq Ho Hc3) as [s4 H4].
+    assert (He3 : enc_ok d3 = true) by reflexivity.
+    destruct (send_if_msgs_eff (d3, s3) Hq Ho Hc3 He3) as [s4 H4].
     destruct Hx as [[Hx Hx']|[Hx Hx']]; rewrite Hx; subst x; cbn [fst snd] in *; rewrite H3; cbn [fst snd]; rewrite H4; cbn [fst snd];
-      (split; [reflexivity|]; split; [exact Hc3|]; intros; discriminate).
+      (split; [reflexivity|]; split; [exact Hc3|]; split; [reflexivity|]; intros; discriminate).
 Qed.
 
 (* the prefix keeps the connection *)
 Definition inv2 (ms : mstate St) (buf : bytes) : Prop :=
-  alive ms = true /\ crashed ms = false /\ m_buf ms = buf /\ connected (fst (m_p ms)) = true.
+  alive ms = true /\ crashed ms = false /\ m_buf ms = buf /\ connected (fst (m_p ms)) = true /\
+  enc_ok (fst (m_p ms)) = true.
 
 Lemma drivers_run_inv2 ms rv buf : quiet -> dispatch_ok -> out_ok ->
   inv2 ms buf -> calm rv = true -> step_ok vt decode rv buf = true ->
   inv2 (drivers_run ms rv) (step_buf rv buf).
 Proof.
-  intros Hq Hd Ho (Ha & Hcr & Hb & Hc) Hcalm Hs. unfold Model.drivers_run. rewrite Ha, Hcr. cbn [andb negb].
-  destruct (driver_run_calm rv buf (m_p ms) Hq Hd Ho Hcalm Hs Hc) as (H1 & H2 & _).
-  destruct (driver_run_none St vt decode dispatch addmsg cbs rv buf (m_p ms) Hd Ho Hs) as [_ H3].
+  intros Hq Hd Ho (Ha & Hcr & Hb & Hc & He) Hcalm Hs. unfold Model.drivers_run. rewrite Ha, Hcr. cbn [andb negb].
+  destruct (driver_run_calm rv buf (m_p ms) Hq Hd Ho Hcalm Hs Hc He) as (H1 & H2 & H2e & _).
+  destruct (driver_run_none St vt decode dispatch addmsg cbs rv buf (m_p ms) Hd Ho Hs He) as (_ & H3 & _).
   specialize (H3 Hc). rewrite Hb.
   destruct (driver_run rv buf (m_p ms)) as [b' [p' x]]. cbn [fst snd] in *. subst x b'.
   repeat split; cbn; auto.
@@ -269,19 +283,20 @@ Lemma ping_after rvs s l m a rest :
   quiet -> dispatch_ok -> out_ok ->
   forallb calm rvs = true -> dom rvs [] = true -> final_buf rvs = [] ->
   mem LFb l = false -> parse_msg vt (decode l) = Ok (Some m) ->
-  is_ping (m_command m) = true -> m_args m = a :: rest -> valid_arg a = true ->
+  is_ping (m_command m) = true -> m_args m = a :: rest -> valid_arg a = true -> encodable a = true ->
   let ms := run_reads (rvs ++ [RData (l ++ [LFb])]) (init s) in
   alive ms = true /\ crashed ms = false /\ In a (sent (fst (m_p ms))).
 Proof.
-  intros Hq Hd Ho Hcalm Hdom Hfb Hmem Hp Hping Hargs Hv. cbn zeta. rewrite run_reads_app.
+  intros Hq Hd Ho Hcalm Hdom Hfb Hmem Hp Hping Hargs Hv Henc. cbn zeta. rewrite run_reads_app.
   assert (Hi0 : inv2 (init s) []) by (repeat split; reflexivity).
-  pose proof (run_reads_inv2 rvs Hq Hd Ho (init s) [] Hi0 Hcalm Hdom) as (Ha & Hcr & Hb & Hc).
+  pose proof (run_reads_inv2 rvs Hq Hd Ho (init s) [] Hi0 Hcalm Hdom) as (Ha & Hcr & Hb & Hc & He).
   fold (final_buf rvs) in Hb. rewrite Hfb in Hb.
   set (ms := run_reads rvs (init s)) in *.
   unfold Model.run_reads. cbn [fold_left]. unfold Model.drivers_run. rewrite Ha, Hcr. cbn [andb negb]. rewrite Hb.
   assert (Hs : step_ok vt decode (RData (l ++ [LFb])) [] = true).
-  { cbn [step_ok app]. rewrite (split_lines_line l Hmem). cbn. unfold Model.line_ok. rewrite Hp. reflexivity. }
-  destruct (driver_run_calm (RData (l ++ [LFb])) [] (m_p ms) Hq Hd Ho eq_refl Hs Hc) as (H1 & H2 & H3).
+  { cbn [step_ok app]. rewrite (split_lines_line l Hmem). cbn. unfold Model.line_ok. rewrite Hp.
+    unfold echo_ok. rewrite Hping, Hargs, Hv, Henc. reflexivity. }
+  destruct (driver_run_calm (RData (l ++ [LFb])) [] (m_p ms) Hq Hd Ho eq_refl Hs Hc He) as (H1 & H2 & _ & H3).
   specialize (H3 l m a rest eq_refl eq_refl Hmem Hp Hping Hargs Hv).
   destruct (driver_run _ [] (m_p ms)) as [b' [p' x]]. cbn [fst snd] in *. subst x.
   repeat split; cbn; auto.
